@@ -293,8 +293,22 @@ func prims() []prim {
 			}
 			return v
 		},
-		enc: func(b *bytes.Buffer, v any) error { return util.WriteVarInt(b, int(v.(int64))) },
-		dec: func(rd *bytes.Reader) (any, error) { x, err := util.ReadVarInt(rd); return int64(x), err },
+		enc: func(b *bytes.Buffer, v any) error {
+			n, err := util.WriteVarIntN(b, int(v.(int64))) // WriteVarInt = WriteVarIntN without n
+			if err == nil && n != b.Len() {
+				varintNMismatch = append(varintNMismatch, map[string]any{"known": nil, "what": "WriteVarIntN n differs from bytes written", "value": v, "n": n, "written": b.Len()})
+			}
+			return err
+		},
+		dec: func(rd *bytes.Reader) (any, error) {
+			// ReadVarInt is ReadVarIntReturnN without n; n must be the number of bytes consumed
+			before := rd.Len()
+			x, n, err := util.ReadVarIntReturnN(rd)
+			if err == nil && n != before-rd.Len() {
+				varintNMismatch = append(varintNMismatch, map[string]any{"known": nil, "what": "ReadVarIntReturnN n differs from bytes consumed", "value": x, "n": n, "consumed": before - rd.Len()})
+			}
+			return int64(x), err
+		},
 	})
 	ps = append(ps, prim{name: "bool", coq: "OBool", values: 2,
 		gen: func(r *lib.Rng, i int) any { return i%2 == 0 },
@@ -552,6 +566,8 @@ func prims() []prim {
 	return ps
 }
 
+var varintNMismatch []any
+
 func util_WriteBytes(b *bytes.Buffer, v []byte) error { return util.WriteBytes(b, v) }
 
 // ---- running the real code ----
@@ -683,6 +699,9 @@ func main() {
 				map[string]any{"op": p.name, "kind": "raw", "input_hex": fmt.Sprintf("%x", in), "observed": o.desc},
 				len(in) > 0, "op="+p.name, "kind=raw")
 		}
+	}
+	for _, m := range varintNMismatch {
+		out.GoViolation(m)
 	}
 	out.Finish()
 }
